@@ -1,41 +1,89 @@
-_SRC = ["c01_main.cpp"] + ["c01_opt_%s.cpp" % n for n in ["default", "full", "minimal", "fastp", "fastcof", "stable", "mini", "lowfull"]]
+_SRC = ["c01_main.cpp"] + ["c01_opt_%s.cpp" % n for n in ["default", "full", "minimal", "fastp", "fastcof", "stable", "mini", "lowfull"]] + \
+       ["c01_cross_%s.cpp" % n for n in "abc"]
 SPEC = {
     "property": "C01",
-    "rule": "histories of 1-40 operations {insert_simplex (facets present, monotone value), insert_simplex_and_subfaces (shuffled / duplicated "
-            "vertices), insert_batch_vertices (mix of new and existing), insert_graph (on an empty tree), remove_maximal_simplex, "
-            "prune_above_filtration, prune_above_dimension, clear} generated from the abstract model only, over 3-7 labels from 4 universes "
-            "(contiguous, sparse/negative/2^30, offset, 16-bit extremes); the SAME history is replayed on every option set that admits it "
-            "(default, full_featured, fast_cofaces, stable | minimal, mini(short,uint8,no filtration), low_full(int16,float), default | "
-            "fast_persistence(contiguous,float), low_full, full_featured) and after EVERY step every read interface is compared with the model: "
-            "find on all label subsets, vertex/simplex/skeleton ranges, boundary (+opposite vertices), star and cofaces codim 1-3 of every simplex, "
-            "counts, dimension(sh), upper_bound_dimension, dimension() (queried on a random half of the steps), filtration values, documented "
-            "return values, and operator== against a tree rebuilt from the model and against a one-simplex perturbation. "
+    "rule": "histories of 1-40 operations {insert_simplex (facets present, monotone value; vertices shuffled, 1 in 6 with a repeated vertex), "
+            "insert_simplex_and_subfaces (shuffled / duplicated vertices), out-of-order STREAMS of all faces of 1-2 simplices through insert_simplex "
+            "(monotone values, observed after the stream), insert_batch_vertices (new / existing / mixed; shuffled, repeated, empty lists), "
+            "insert_graph (on an empty tree; undirectedS / directedS, reversed and doubled edges, no vertex), remove_maximal_simplex, "
+            "prune_above_filtration (thresholds incl. -inf, negative, +inf), prune_above_dimension (incl. -1, -10, dim+1), clear} generated from the "
+            "abstract model only; values on a dyadic grid in [-4,4] plus -inf and +inf; 3-7 labels from 6 universes (contiguous, sparse/negative/2^30, "
+            "offset, 16-bit near-extremes, INT_MIN/INT_MAX, SHRT_MIN/SHRT_MAX), and a large_universe config with 16-64 labels (dense, scattered 16-bit "
+            "incl. both extremes, arithmetic progression) and simplices of <= 5 vertices; the SAME history is replayed on every option set that admits "
+            "it (default, full_featured, fast_cofaces, stable | minimal, mini(short,uint8,no filtration), low_full(int16,float), default | "
+            "fast_persistence(contiguous,float), low_full, full_featured | large: default, fast_cofaces, stable, low_full) and after EVERY step every "
+            "read interface is compared with the model: find on all label subsets with permuted vertex order and (1 in 8) a repeated vertex (large "
+            "universe: every present simplex + 64 sampled subsets / neighbours of present simplices), vertex/simplex ranges, skeleton ranges for "
+            "d = -7, -1, 0..dim+1, boundary (+opposite vertices), star and cofaces of codimension 1..max(3,dim+1) of every simplex (large universe: of "
+            "16 sampled simplices), counts, dimension(sh), upper_bound_dimension, filtration values, documented return values of both simplex "
+            "insertions (bool, handle == find(simplex), null handle when nothing changed), operator== / != in both directions against a tree rebuilt "
+            "from the model and against a one-simplex perturbation. The cached dimension bound is queried in one of 5 modes drawn per step (none 40% | "
+            "num_simplices_by_dimension then dimension | dimension() FIRST | dimension() last without by_dimension | by_dimension only), so a stale "
+            "bound on a non-empty complex survives sweeps and following operations and dimension()'s deep search runs on non-empty complexes. "
+            "cross_* configs: the same history on two option sets side by side (default/fast_cofaces, full/stable, minimal/mini, low_full/default, "
+            "fast_persistence/full, fast_persistence/low_full), bounds refreshed independently (none | dimension | by_dimension), operator== across "
+            "the option sets in both directions after every step (stale vs exact, stale vs stale) and against a perturbed tree of the other option set. "
             "non-trivial = distinct history (hash of ops) with a removal/pruning followed by re-insertion of a removed simplex and dimension >= 2",
-    "assumptions": ["insert_simplex is only called with all facets present and a value >= its facets' values (documented monotonicity precondition)",
-                    "contiguous_vertices option sets only see histories keeping the vertex set {0..n-1}",
-                    "null_vertex (-1) is never used as a label", "oracle::ComplexModel is the trusted model"],
+    "assumptions": ["insert_simplex outside a stream is only called with all facets present and a value >= its facets' values (documented monotonicity "
+                    "precondition); inside a stream the values are monotone on the streamed faces and nothing is observed before the stream ends "
+                    "(documented: the complex is not simplicial in between)",
+                    "contiguous_vertices option sets only see histories keeping the vertex set {0..n-1} at all times (streams bring at most the next vertex)",
+                    "null_vertex (-1) is never used as a label; NaN is never used as a value",
+                    "insert_graph: vertex descriptors 0..n-1, no self-loop (documented to throw), a doubled edge carries the same value twice "
+                    "(the representative that is read is documented as arbitrary)",
+                    "large_universe: lookups and per-simplex sweeps are sampled, not exhaustive; simplices have at most 5 vertices there",
+                    "operator== across option sets is only evaluated between option sets that both store (or both do not store) filtration values",
+                    "handles are compared with find()'s result: one simplex has one handle",
+                    "oracle::ComplexModel is the trusted model"],
     "units": [
         {"name": "st", "src": _SRC, "variant": "asan",
          "configs": {"general": {"quick": 5000, "thorough": 120000}, "small_labels_nofilt": {"quick": 3000, "thorough": 80000},
-                     "contiguous": {"quick": 3000, "thorough": 80000}}, "chunk": 25},
+                     "contiguous": {"quick": 3000, "thorough": 80000}, "large_universe": {"quick": 400, "thorough": 8000},
+                     "cross_general": {"quick": 1500, "thorough": 30000}, "cross_small_labels": {"quick": 1000, "thorough": 20000},
+                     "cross_contiguous": {"quick": 1000, "thorough": 20000}}, "chunk": 25},
         # gcc's UBSan sees invalid-bool loads that clang's optimises away (it found the uninitialised end iterator of the star range)
         {"name": "st_gcc", "src": _SRC, "variant": "gasan",
          "configs": {"general": {"quick": 400, "thorough": 20000}, "small_labels_nofilt": {"quick": 200, "thorough": 10000},
-                     "contiguous": {"quick": 200, "thorough": 10000}}, "chunk": 25},
+                     "contiguous": {"quick": 200, "thorough": 10000}, "large_universe": {"quick": 40, "thorough": 1000},
+                     "cross_general": {"quick": 100, "thorough": 4000}, "cross_small_labels": {"quick": 50, "thorough": 2000},
+                     "cross_contiguous": {"quick": 50, "thorough": 2000}}, "chunk": 25},
         # valgrind memcheck: use of uninitialised values (not visible to ASan/UBSan unless the value is a bool/enum)
         {"name": "st_memcheck", "src": _SRC, "variant": "memcheck",
          "configs": {"general": {"quick": 160, "thorough": 4000}, "small_labels_nofilt": {"quick": 80, "thorough": 2000},
-                     "contiguous": {"quick": 80, "thorough": 2000}}, "chunk": 10},
+                     "contiguous": {"quick": 80, "thorough": 2000}, "large_universe": {"quick": 4, "thorough": 200},
+                     "cross_general": {"quick": 40, "thorough": 800}, "cross_small_labels": {"quick": 20, "thorough": 400},
+                     "cross_contiguous": {"quick": 20, "thorough": 400}}, "chunk": 10},
     ],
     "floors": {"quick": {"hist.reaches_dim3": 50, "state.empty_complex": 50, "state.upper_bound_above_dimension": 50,
                          "op.remove_maximal_simplex": 1000, "op.prune_above_filtration": 300, "op.prune_above_dimension": 300,
-                         "op.insert_graph": 30, "cmp.equality": 1000, "_distinct_nontrivial": 300},
+                         "op.insert_graph": 30, "cmp.equality": 1000, "_distinct_nontrivial": 300,
+                         # the cached dimension bound: stale on a non-empty complex when the next operation starts, during the sweep,
+                         # when dimension() / num_simplices_by_dimension() / operator== are evaluated
+                         "state.stale_bound_nonempty_at_op": 12000, "state.sweep_under_stale_bound": 25000,
+                         "cmp.dimension_via_deep_search": 15000, "cmp.by_dimension_under_stale_bound": 8000,
+                         "cmp.equality_under_stale_bound": 4000,
+                         # operator== across option sets
+                         "cmp.equality_cross_options": 65000, "cmp.equality_cross_options.stale_vs_exact": 2500,
+                         "cmp.equality_cross_options.stale_vs_stale": 450, "cmp.inequality_cross_options": 19000,
+                         # input classes added after the audit
+                         "opclass.insert_simplex.input_repeated_vertex": 12000, "cmp.find_repeated_vertex": 2500000,
+                         "cmp.find_permuted": 19000000, "cmp.skeleton_negative_dimension": 790000, "cmp.cofaces_codim_above_3": 2500000,
+                         "cmp.insert_subfaces_handle": 150000, "op.insert_simplex_stream": 47000,
+                         "opclass.insert_simplex_stream.all_new,coface_before_face": 5000,
+                         "opclass.insert_simplex_stream.mixed,coface_before_face": 12000,
+                         "opclass.insert_batch_vertices.empty_list": 5000, "opclass.insert_batch_vertices.input_repeated_vertex": 9000,
+                         "opclass.insert_graph.on_empty,directed": 850, "opclass.insert_graph.on_empty,reversed_edges,doubled_edges": 650,
+                         "opclass.insert_graph.on_empty,directed,reversed_edges,doubled_edges": 300, "opclass.insert_graph.no_vertex": 250,
+                         "hist.value_minus_infinity": 4400, "hist.value_plus_infinity": 5000, "hist.value_negative": 5800,
+                         "hist.prune_threshold_minus_infinity": 580, "hist.extreme_labels": 1800,
+                         "hist.large_universe": 300, "cmp.find_sampled": 630000, "state.sampled_sweep": 4500},
                "thorough": {"hist.reaches_dim3": 5000, "_distinct_nontrivial": 30000}},
     "manifest": {
         "text": "Runtime monitor: thousands of model-generated operation histories are replayed on 8 Simplex_tree option sets under ASan+UBSan "
                 "(clang; gcc in thorough); after every step the complete observable state (every read interface on every simplex / label subset) "
-                "is compared with an independent abstract-complex model, so a divergence is caught at the step where it becomes observable. "
-                "Sampled histories, exhaustive queries per state; held-on-what-was-observed.",
+                "is compared with an independent abstract-complex model, so a divergence is caught at the step where it becomes observable; the "
+                "cached dimension bound is left stale across sweeps and operations on a random part of the steps, and operator== is also evaluated "
+                "across option sets. Sampled histories, exhaustive queries per state (sampled in the 16-64 label config); held-on-what-was-observed.",
         "note": "trusted: oracle::ComplexModel, libstdc++; preconditions (facets present, monotone values, contiguous labels where required) enforced by the generator",
         "technique": "runtime monitoring: randomized operation histories + reference-model oracle after every step, cross-configuration replay, AddressSanitizer/UBSan",
     },
